@@ -182,9 +182,9 @@ def rf46(run):
     from lib import enumflow as EF
     rule = 'RF46'
     run.rule(rule, 'func_alloca_features: the constant alloca that process_inlines uses as the base of inlined callees\' frames (the '
-                   '"top alloca") is accepted only while neither a label nor a call has been seen: the statement that ends the search '
-                   'fires for MIR_LABEL and for every call-family opcode (a call in front of the alloca would be inlined with the alloca '
-                   'register still unset)')
+                   '"top alloca") is accepted only while neither a label, a call nor a branch has been seen: the statement that ends the search '
+                   'fires for MIR_LABEL, for every call-family opcode (a call in front of the alloca would be inlined with the alloca '
+                   'register still unset) and for branches (an alloca behind a branch may be skipped)')
     tu = run.tu('mir')
     f = tu.func('func_alloca_features')
     run.functions_analysed.add(('mir', f.name))
@@ -198,7 +198,8 @@ def rf46(run):
     if site is None:
         raise F.AnalysisBroken('func_alloca_features: the statement clearing set_top_alloca_p on an opcode was not found')
     codes = dict(tu.enum('MIR_insn_code_t'))
-    for c in ('MIR_LABEL', 'MIR_CALL', 'MIR_INLINE', 'MIR_JCALL'):
+    for c in ('MIR_LABEL', 'MIR_CALL', 'MIR_INLINE', 'MIR_JCALL', 'MIR_JMP', 'MIR_BT', 'MIR_BF', 'MIR_BEQ', 'MIR_BLT', 'MIR_UBGE', 'MIR_FBNE',
+              'MIR_DBGT', 'MIR_LDBLE', 'MIR_BO', 'MIR_UBNO', 'MIR_SWITCH', 'MIR_JMPI', 'MIR_PRBEQ'):
         v = preds.eval(site['c'][0], {'insn->code': codes[c], 'set_top_alloca_p': 1}, frozenset())
         ok = v is not None and bool(v)
         run.ob(rule, (c,), ok, {'opcode': c, 'ends the search for the top alloca': v})
@@ -207,7 +208,8 @@ def rf46(run):
                 raise F.AnalysisBroken('func_alloca_features: test not evaluable for %s' % c)
             run.violation(rule, f, 'top alloca after %s' % c, 'a constant alloca that follows a %s is still taken for the function\'s top '
                           'alloca: %s' % (c, 'it is executed more than once' if c == 'MIR_LABEL' else 'a call in front of it is inlined with '
-                                          'a frame address computed from the alloca register before the alloca has executed'), line=site['l'])
+                                          'a frame address computed from the alloca register before the alloca has executed' if c in ('MIR_CALL', 'MIR_INLINE', 'MIR_JCALL')
+                                          else 'a branch can jump over it, and the frame of a callee inlined behind the join is addressed from a register that was never set'), line=site['l'])
     run.min_instances(rule, 4)
 
 
